@@ -12,7 +12,7 @@ from av.props import simprop
 MANIFEST_ENTRY = {
     "category": "exploration",
     "technique": "round-trip monitor: structural content comparison (order-insensitive, 15 significant digits through spreadsheets, exact through binary files) and paired simulations, for frameworks, databooks, program books, calibrations, projects and results; plus seed-chosen sequences of editing operations after which the object is compared with the one rebuilt from its own exported spreadsheet; all 67 shipped models through every round trip; a failing write or read is itself a violation",
-    "text": "For generated and library inputs: framework.to_spreadsheet -> ProjectFramework, data.to_spreadsheet -> from_spreadsheet, progset.to_spreadsheet -> from_spreadsheet, parset.calibration_spreadsheet -> load_calibration (with unknown rows first / middle / last and with missing rows), Project.save/load and saveobj/loadobj of a Result. Content (every value, year, assumption, uncertainty, unit, population, transfer, interaction, target, effect) is extracted into an order-insensitive canonical form and compared; the simulations of the original and of the round-tripped object must agree to 1e-9, and a second round trip must reproduce the first bit for bit. Sequences of up to 4 operations from {copy, add_pop, remove_pop, add/remove_program, add/remove_par, zero-uncertainty sample(), reconcile, load_calibration} are applied in seed-chosen order, after which the object must simulate (1e-9) like the object rebuilt from its own exported spreadsheet. All 67 shipped models (49 framework/databook(/program book) combinations, 18 fixture frameworks with a generated databook; 4 anchors in every quick run) go through the framework, databook, program-book, calibration and binary round trips; the exported content of edited program sets is compared with the rebuilt one; a write or read that raises is a violation. 15% of the generated series, transfers and interactions hold a constant next to year values; editing operations run on shipped data and program books as well (population types respected, removal by code or full name). Shipped databooks receive uncertainties and further years through the API before export.",
+    "text": "For generated and library inputs: framework.to_spreadsheet -> ProjectFramework, data.to_spreadsheet -> from_spreadsheet, progset.to_spreadsheet -> from_spreadsheet, parset.calibration_spreadsheet -> load_calibration (with unknown rows first / middle / last and with missing rows), Project.save/load and saveobj/loadobj of a Result. Content (every value, year, assumption, uncertainty, unit, population, transfer, interaction, target, effect) is extracted into an order-insensitive canonical form and compared; the simulations of the original and of the round-tripped object must agree to 1e-9, and a second round trip must reproduce the first bit for bit. Sequences of up to 4 operations from {copy, add_pop, remove_pop, add/remove_program, add/remove_par, zero-uncertainty sample(), reconcile, load_calibration} are applied in seed-chosen order, after which the object must simulate (1e-9) like the object rebuilt from its own exported spreadsheet. All 67 shipped models (49 framework/databook(/program book) combinations, 18 fixture frameworks with a generated databook; 5 anchors in every quick run) go through the framework, databook, program-book, calibration and binary round trips; the exported content of edited program sets is compared with the rebuilt one; a write or read that raises is a violation. 15% of the generated series, transfers and interactions hold a constant next to year values; editing operations run on shipped data and program books as well (population types respected, removal by code or full name). Shipped databooks receive uncertainties and further years through the API before export.",
     "note": "Time points outside a table's year columns are not written by design, so generated series keep their years inside the table's years. Numbers are compared to 15 significant digits through spreadsheets.",
 }
 
@@ -29,7 +29,7 @@ KINDS = ["framework", "databook", "progbook", "calibration", "binary", "progset_
 N = {"quick": 200, "thorough": 5000}
 
 
-ANCHORS = ["atomica/library/malaria_framework.xlsx", "atomica/library/combined_framework.xlsx", "atomica/library/tb_framework.xlsx", "tests/timed_tb_framework.xlsx"]  # 3 population types + week/day timescales + derivatives; 3 types with data; large; timed
+ANCHORS = ["atomica/library/malaria_framework.xlsx", "atomica/library/combined_framework.xlsx", "atomica/library/tb_framework.xlsx", "tests/timed_tb_framework.xlsx", "tests/framework_par_min_max_test.xlsx"]  # 3 population types + week/day timescales + derivatives; 3 types with data; large; timed
 N_CORPUS = {"quick": 16, "thorough": 201}  # (thorough: 3 perturbed variants of each of the 67 corpus models)
 
 
@@ -60,6 +60,10 @@ def make_case(tier, seed, index):
         pops_ = [str(pmenu[int(rng.integers(0, len(pmenu)))]) for _ in range(int(rng.integers(1, 4)))]
         while pops_.count("sample0") > 1:
             pops_.remove("sample0")
+        if tier == "quick" and index < len(ANCHORS):
+            # (in the anchors of a quick run the rarer forms of the operations are not left to chance)
+            pops_ = ["remove_pop"] + [x for x in pops_ if x != "remove_pop"][:2]
+            case["remove_pop_by"] = "full name"
         case["progset_ops"] = pops_
         case.update({"kind": "corpus-roundtrip", "framework": fw, "databook": db, "progbook": pbs[int(rng.integers(0, len(pbs)))] if pbs else None, "mode": "mild", "budget_factor": 1.0, "prog_start_step": 1.0, "ops": ops, "seed": [seed, 16, index, 9]})
         return case
@@ -592,9 +596,13 @@ def progset_ops(R, case, P, pset, instr, rng):
             elif op == "remove_pop":
                 if len(ps.pops) < 2:
                     continue
-                code_ = list(ps.pops.keys())[-1]
+                with_effects = [c_ for c_ in ps.pops if any(k_[1] == c_ for k_ in ps.covouts)]  # (prefer a population in which programs have effects)
+                code_ = with_effects[-1] if with_effects else list(ps.pops.keys())[-1]
+                named = [c_ for c_ in with_effects if ps.pops[c_]["label"] != c_ and ps.pops[c_]["label"] not in ps.pops]
+                if named and case.get("remove_pop_by") == "full name":
+                    code_ = named[-1]  # (one whose full name differs from its code name)
                 label_ = ps.pops[code_]["label"]
-                if rng.random() < 0.5 and label_ != code_ and label_ not in ps.pops:
+                if (rng.random() < 0.5 or case.get("remove_pop_by") == "full name") and label_ != code_ and label_ not in ps.pops:
                     ps.remove_pop(label_)  # (the method accepts the code name or the full name)
                     R.count("remove_pop_by_full_name")
                 else:
